@@ -386,9 +386,12 @@ Specials(n, Z) == LET nz == Pos(n) \ Z IN
    IF nz = {} THEN {<<"one", -1>>}
    ELSE {<<"one", -1>>} \cup {<<s, MinOf(nz)>> : s \in Atoms \ {"zero", "one"}}
         \cup (IF Rich THEN {<<s, MaxOf(nz)>> : s \in Atoms \ {"zero", "one"}} ELSE {})
-RichContents(n) == UNION {{Content(n, Z, sq[1], sq[2]) : sq \in Specials(n, Z)} : Z \in SUBSET Pos(n)}
 (* a few zero patterns for view / fault cases *)
 Patterns(n) == {{}, {p \in Pos(n) : p % 2 = 1}, {p \in Pos(n) : p % 3 = 0}, Pos(n)}
+(* all zero patterns up to 6 positions; beyond that the four patterns, every single zero and every single non-zero *)
+ZeroSets(n) == IF n <= 6 THEN SUBSET Pos(n)
+               ELSE Patterns(n) \cup {{p} : p \in Pos(n)} \cup {Pos(n) \ {p} : p \in Pos(n)}
+RichContents(n) == UNION {{Content(n, Z, sq[1], sq[2]) : sq \in Specials(n, Z)} : Z \in ZeroSets(n)}
 PlainContents(n) == {Content(n, Z, "one", -1) : Z \in Patterns(n)}
 
 Windows(n) == {<<a, b>> \in (0..n) \X (0..n) : a < b /\ b - a < n} \cup {<<0, 0>>, <<n, n>>}   \* proper sub-windows, two empty ones
